@@ -3,7 +3,7 @@
 set -e
 cd /verif/coq
 [ -f Makefile ] && [ Makefile -nt _CoqProject ] || coq_makefile -f _CoqProject -o Makefile >/dev/null 2>&1
-timeout 3000 make -j16 2>&1 | grep -v "^COQDEP\|^COQC\|Warning: \|orphan" || true
+timeout 3000 make -k -j16 2>&1 | grep -v "^COQDEP\|^COQC\|Warning: \|orphan" || true
 [ "${PIPESTATUS[0]}" = 0 ] || exit 1
 cd /verif/ocaml
 if [ ! -f driver ] || [ -n "$(find /verif/coq -name '*.vo' -newer driver 2>/dev/null | head -1)" ] || [ driver.ml -nt driver ]; then
